@@ -312,7 +312,7 @@ def judge(root, before, after, named, mounts, extra_allowed_dirs=()):
         allowed_dirs.add(T + '/files')
         allowed_dirs.add(T + '/info')
         p = T
-        while p and p != '/':
+        while p and p.strip('/') and posixpath.dirname(p) != p:
             allowed_dirs.add(p)
             p = posixpath.dirname(p)
     for k in added:
@@ -389,7 +389,7 @@ def candidate_skeleton(env, uid, mounts):
         out.add(c + '/files')
         out.add(c + '/info')
         p = c
-        while p and p != '/':
+        while p and p.strip('/') and posixpath.dirname(p) != p:
             out.add(p)
             p = posixpath.dirname(p)
     return out
